@@ -170,7 +170,10 @@ def ch_job(job):
         model.point_labels = list(labels)
         model = cluster_maintenance.update_all_cluster_statistics(model, arr)
         with np.errstate(all="ignore"):
-            return float(cluster_metrics.calinski_harabasz_index(arr, model)), arr
+            try:
+                return float(cluster_metrics.calinski_harabasz_index(arr, model)), arr
+            except Exception:                     # the function under test raised: not a number -> the clause fails
+                return float("nan"), arr
     got, arr = index_of(X)
     X2 = [[v + (shift if c == col else 0) for c, v in enumerate(row)] for row in X]
     got2, _ = index_of(X2)
@@ -186,3 +189,40 @@ def ch_job(job):
     return {"kind": "ch", "X": X, "labels": labels, "K": K, "chQ": q(got), "chQTranslated": q(got2),
             "scalarCentreExplains": bool(close(got, dev) and close(got2, dev2)),
             "col": col + 1, "shift": shift}
+
+
+def floor_job(job):
+    """_zero_small_elements / _reconstruct_optimized_matrix on integer matrices (exact), including entries
+    exactly equal to +-eps, eps = 0, negative entries, both copy modes."""
+    from harness import common
+    common.use_repo()
+    from fast_ticc import graphical_lasso, matrix_compression
+    from fast_ticc.containers import arguments, model_state
+    n, eps, how, seed = job
+    rng = random.Random(seed)
+    vals = [-3, -2, -1, 0, 1, 2, 3, eps, -eps]
+    if how == "reconstruct":
+        tri = [rng.choice(vals) for _ in range(n * (n + 1) // 2)]
+        args = arguments.UserArguments(sparsity_weight=0.1, iteration_limit=3, label_switching_cost=1.0,
+                                       min_cluster_size=1, min_meaningful_covariance=eps, num_clusters=2,
+                                       num_processors=1, window_size=1, biased_covariance=False)
+        model = model_state.ModelState.empty_model(args, np.zeros((2, n)))
+        vec = np.array(tri, dtype=np.float64)
+        snap = vec.tobytes()
+        out = graphical_lasso._reconstruct_optimized_matrix(model, vec)
+        m = np.zeros((n, n))
+        k = 0
+        for r in range(n):
+            for c in range(r, n):
+                m[r, c] = m[c, r] = tri[k]
+                k += 1
+        return {"kind": "floor", "m": [[int(v) for v in row] for row in m], "eps": eps,
+                "out": [[int(v) for v in row] for row in out], "copy": True, "input_same": vec.tobytes() == snap,
+                "how": how}
+    m = np.array([[rng.choice(vals) for _ in range(n)] for _ in range(n)], dtype=np.float64)
+    orig = m.copy()
+    copy = how == "copy"
+    out = graphical_lasso._zero_small_elements(m, eps, copy=copy)
+    return {"kind": "floor", "m": [[int(v) for v in row] for row in orig], "eps": eps,
+            "out": [[int(v) for v in row] for row in out], "copy": copy, "input_same": bool((m == orig).all()),
+            "how": how}
